@@ -48,6 +48,11 @@ class VLoop(asyncio.SelectorEventLoop):
         self.unhandled = []          # contexts passed to the exception handler
         self.set_exception_handler(self._on_exception)
         self._selfpipe_fd = self._ssock.fileno()
+        # a signal handler ran while the loop was blocked in its selector: the wait goes on (PEP 475) until a descriptor -
+        # the wake-up pipe included - is ready or the timeout computed BEFORE the handler ran is over; callbacks the
+        # handler queued with a plain call_soon sit in _ready until then
+        self.asleep = False
+        self.asleep_deadline = None
 
     def _on_exception(self, loop, context):
         exc = context.get('exception')
@@ -59,6 +64,8 @@ class VLoop(asyncio.SelectorEventLoop):
     # -- explorer side ----------------------------------------------------
     def next_timer(self):
         """Deadline of the earliest live timer, or None."""
+        if self.asleep:
+            return self.asleep_deadline
         sched = self._scheduled
         while sched and sched[0]._cancelled:
             h = heapq.heappop(sched)
@@ -77,6 +84,11 @@ class VLoop(asyncio.SelectorEventLoop):
         return [k.fd for k, _ in self.vsel.peek() if k.fd != self._selfpipe_fd]
 
     def runnable_now(self):
+        if self.asleep:
+            if self.vsel.peek():
+                return True
+            t = self.asleep_deadline
+            return t is not None and t <= CLOCK.now + self._clock_resolution
         if self._ready:
             return True
         if self.vsel.peek():
@@ -88,6 +100,7 @@ class VLoop(asyncio.SelectorEventLoop):
         """Exactly one faithful _run_once at the current virtual time."""
         CLOCK.begin_callback()
         self.iterations += 1
+        self.asleep = False
         self._run_once()
 
     # -- what circus / tornado call -----------------------------------------
